@@ -270,6 +270,24 @@ def cases(ctx):
         k = rng.randrange(2, 7)
         p = rng.choice(PREFIXES)
         yield from emit(p + ''.join(rng.choice(toks) for _ in range(k)) + rng.choice(['', '\n# EOF\n', '\n# EOF']), 'fragrand')
+    # 4b. native-histogram values: every list x every near-miss body, then random values with one or two syntax edits
+    base = 'count:1,sum:1,schema:0,zero_threshold:0,zero_count:0'
+    for key in omgen.NH_LISTS:
+        for body in omgen.NH_BODIES:
+            for head in ('a', 'a{x="y"}'):
+                yield from emit('# TYPE a histogram\n%s {%s,%s:[%s]}\n# EOF\n' % (head, base, key, body), 'nh-list')
+    for k1 in omgen.NH_LISTS:
+        for k2 in omgen.NH_LISTS:
+            for b1, b2 in (('', ''), ('1', ''), ('', '0:1'), ('0:1', '1'), ('1', '1')):
+                yield from emit('# TYPE a histogram\na {%s,%s:[%s],%s:[%s]}\n# EOF\n' % (base, k1, b1, k2, b2), 'nh-list')
+    for i in range(ctx.n(260, 6000)):
+        struct = omgen.nh_struct(rng)
+        texts = [struct] + omgen.nh_near_misses(rng, struct, limit=ctx.n(14, 60))
+        for t in texts:
+            if rng.random() < 0.15:
+                t = rng.choice(omgen.nh_near_misses(rng, t, limit=3) or [t])
+            tail = rng.choice(['', '', '\na_bucket{le="+Inf"} 1\na_count 1\na_sum 1', '\n' + omgen.nh_line(rng, omgen.nh_struct(rng))])
+            yield from emit('# TYPE a histogram\n' + omgen.nh_line(rng, t) + tail + '\n# EOF\n', 'nh')
     # 5. rule-violating documents (C15's generator) are also C14 inputs
     for i in range(ctx.n(40, 600)):
         g = omgen.Gen(rng, nh=False)
